@@ -222,6 +222,16 @@ pub fn run_c09(cx: &mut Cx) {
                         probe(cx, victim, suite, art, f, format!("extend:+{k}/{}", ["zeros", "prng", "scalars"][cls as usize]), wl);
                     }
                 }
+                // the same in FRONT: zero octets (a left-padded integer export) and other octets prepended
+                for k in [1usize, 2, 16, 32, 48] {
+                    for cls in 0..2u8 {
+                        let mut f = vec![0u8; k];
+                        if cls == 1 { Xo::new(cx.run_seed, &[b"pre", &[k as u8]]).fill(&mut f); }
+                        f.extend_from_slice(&b);
+                        let wl = wrong_length(art, f.len());
+                        probe(cx, victim, suite, art, f, format!("prepend:+{k}/{}", ["zeros", "prng"][cls as usize]), wl);
+                    }
+                }
                 for n in 0..b.len() { probe(cx, victim, suite, art, b[..n].to_vec(), format!("truncate:{n}"), wrong_length(art, n)); }
                 // signatures also enter the library as octet SLICES (proof_gen, blind_proof_gen take
                 // &[u8]): the decoder behind those entry points refuses every other length too
